@@ -229,13 +229,21 @@ def md_val_abstract(v, pal, key=None):
         return "i", [str(int(v))]
     if isinstance(v, (float, np.floating)):
         f = float(v)
-        return "f", [repr(f)]
+        r = repr(f)
+        return "f", [r[:-2] if r.endswith(".0") else r]       # canonical text: 7.0 -> "7"
     if isinstance(v, str):
         return "s", [pal.s_inv(str(v))]
     if isinstance(v, (list, tuple, np.ndarray)):
         vs = list(v)
         if all(isinstance(x, str) for x in vs):
             return "l", [pal.s_inv(str(x)) for x in vs]
+        if vs and all(isinstance(x, (list, tuple)) and all(isinstance(y, str) for y in x) for x in vs):
+            flat = []                       # list of lists of text: flattened with the separator token "|"
+            for i, x in enumerate(vs):
+                if i:
+                    flat.append("|")
+                flat.extend(pal.s_inv(str(y)) for y in x)
+            return "p", flat
         try:
             return "j", [json.dumps(_plain(vs), sort_keys=True)]
         except Exception:
